@@ -34,8 +34,7 @@ def _job(item):
     seen = set()
     for f in fs:
         key = (f.kind, ''.join(c for c in f.detail if not c.isdigit())[:80])
-        if f.kind == "session" and "not a function entry of this code" in f.detail:
-            f.role = "session:function-value-of-earlier-line"
+        if f.kind == "session" and f.role.startswith("session:"):
             key = (f.kind, f.role)
         if key in seen:
             continue
